@@ -139,7 +139,7 @@ struct MtHarness {
 		AUNPOISON(arena, ARENA);
 		W.regions.clear(); W.maps = W.unmaps = 0; W.skew = skew; W.poisoning = Poison;
 		APOISON(arena, ARENA);
-		memset(pool_store, 0, sizeof pool_store); new(pool_store) Pool(policy);
+		memset(pool_store, 0xA5, sizeof pool_store); new(pool_store) Pool(policy);
 		for(auto &row : slots) for(auto &b : row) b = Blk{};
 		live.clear(); log.clear();
 		for(auto &b : box) b.store(0, std::memory_order_relaxed);
